@@ -323,7 +323,7 @@ theorem kstep_detect (s : St) (c : Cfg) (call : Call) (err : ErrKind) : KStep s 
         split
         · exact KStep.refl s
         · split
-          · exact (kstep_modRef s call.slot (fun r => { r with deCalls := r.deCalls + 1 })).trans (kstep_refresh _ _)
+          · exact (kstep_modRef s call.slot (fun r => { r with deCalls := satInc r.deCalls })).trans (kstep_refresh _ _)
           · exact kstep_modRef _ _ _
 
 theorem kstep_opDone {s : St} (h : Pool1 ci s) (callId : Nat) (err : ErrKind) (reply : Msg) :
@@ -732,7 +732,7 @@ theorem ext2_detect (s : St) (c : Cfg) (call : Call) (err : ErrKind) : Ext2 s (d
         split
         · exact Ext2.refl s
         · split
-          · exact (ext2_modRef s call.slot (fun r => { r with deCalls := r.deCalls + 1 })).trans (ext2_refresh _ _)
+          · exact (ext2_modRef s call.slot (fun r => { r with deCalls := satInc r.deCalls })).trans (ext2_refresh _ _)
           · exact ext2_modRef _ _ _
 
 theorem ext2_opCtxDone (s : St) (callId : Nat) : Ext2 s (opCtxDone s callId).1 := by
